@@ -32,7 +32,7 @@ def rules_md():
 
 def matrix_md():
     out = []
-    for title, path in (('Seeded property-breaking changes (`seeded/`): X = the check reports a violation', 'seeded/MATRIX.txt'),
+    for title, path in (('Seeded property-breaking changes (`seeded/`): X = the check reports a violation, u = it reports only obligations it could not decide on the changed code (also exit 1)', 'seeded/MATRIX.txt'),
                         ('Behaviour-preserving refactorings (`refactorings/`): every cell must be `.`', 'refactorings/MATRIX.txt')):
         p = os.path.join(V, path)
         if not os.path.exists(p):
@@ -50,7 +50,7 @@ def matrix_md():
         for l in lines[1:]:
             f = l.split()
             if len(f) != len(hdr) + 1: continue
-            caught[f[0]] = ['C' + h for h, x in zip(hdr, f[1:]) if x == 'X']
+            caught[f[0]] = ['C' + h for h, x in zip(hdr, f[1:]) if x in ('X', 'u')]
     out.append('| change | what it does | caught by |\n|---|---|---|')
     for d in sorted(glob.glob(os.path.join(V, 'seeded', '*', 'meta.json'))):
         sid = os.path.basename(os.path.dirname(d))
